@@ -117,7 +117,10 @@ def shrinks(case: dict):
             yield ["cross", op[1], 2, *op[3:]]
         nargs = dict(build=5, cross=4, auto=4, hist=4, reopen=3, ibuild=3)[op[0]]
         core, handle = list(op[: 1 + nargs]), (op[1 + nargs] if len(op) > 1 + nargs else 0)
-        if core[-2] > 1:
+        if op[0] == "ibuild":
+            if core[3] > 1:
+                yield [*core[:3], core[3] - 1, handle]  # an earlier file operation fails
+        elif core[-2] > 1:
             yield [*core[:-2], 1, 0, handle]  # sequential instead of parallel
         if handle:
             yield [*core, 0]
